@@ -114,7 +114,7 @@ pub fn gen_c12(thorough: bool, seed: u64) -> Vec<Episode> {
                 ops.push(json!({"op": "t_rel", "f": f, "a": 0, "b": 0}));
             }
             ops.push(json!({"op": "t_bin", "g": "and", "f": "ref_ref", "a": 0, "b": 0, "d": 2}));
-            for m in 0..(1usize << n).min(8) {
+            for m in (0..(1usize << n).min(8)).chain([u32::MAX as usize, usize::MAX, 1usize << 31, (u32::MAX as usize) >> 1]) {
                 ops.push(json!({"op": "t_val", "a": 0, "mb": bits(m)}));
             }
             eps.push(ep(n, ops));
@@ -191,6 +191,10 @@ pub fn gen_c12(thorough: bool, seed: u64) -> Vec<Episode> {
             let m2 = (m | pa) & !qa;
             ops.push(json!({"op": "t_val", "a": 0, "mb": bits(m)}));
             ops.push(json!({"op": "t_val", "a": 2, "mb": bits(m2)}));
+        }
+        // extreme assignments: nothing true, all 32 variables true, all 64 bits of the word set
+        for m in [0usize, u32::MAX as usize, usize::MAX, (u32::MAX as usize) ^ (1 << (k % 32)), 1usize << 31] {
+            ops.push(json!({"op": "t_val", "a": if k % 2 == 0 {2} else {0}, "mb": bits(m)}));
         }
         // raw masks, possibly overlapping
         let rp = r.gen::<u32>() as usize & r.gen::<u32>() as usize;
@@ -466,7 +470,17 @@ pub fn gen_c14(thorough: bool, seed: u64) -> Vec<Episode> {
         }
     }
     for n in 4..=10usize {
-        for t in structured(n, &mut r).into_iter().take(if thorough { 30 } else { 5 }) {
+        // a spread over the structured family (projections on high variables, single minterms in
+        // high blocks, tables with empty blocks, sparse tables), not only its first members
+        let st = structured(n, &mut r);
+        let stride = if thorough { 1 } else { (st.len() / 7).max(1) };
+        let mut tabs: Vec<Vec<usize>> = st.iter().cloned().enumerate().filter(|(k, _)| k % stride == 0).map(|(_, t)| t).collect();
+        tabs.push(on_from_fn(n, |m| (m >> (n - 1)) & 1 == 1));
+        tabs.push(on_from_fn(n, |m| (m >> (n - 1)) & 1 == 1 && m & 1 == 0));
+        tabs.push(sparse_on(n, &mut r, 4));
+        tabs.push(vec![dom(n) - 1]);
+        tabs.push(vec![dom(n) / 2 + 1, dom(n) - 2]);
+        for t in tabs {
             eps.push(ep(n, vec![json!({"op": "t_mk", "k": "sop", "c": "from_lut_ref", "d": 0, "n": n, "on": t}),
                                 json!({"op": "t_tolut", "a": 0, "f": "ref"}), json!({"op": "t_info", "a": 0})]));
         }
@@ -785,6 +799,32 @@ pub fn gen_c18(thorough: bool, seed: u64) -> Vec<Episode> {
             }
         }
     }
+    // one output that is the OR of many minterms which the other outputs (isolated minterms) already
+    // pay for: its cheapest form has more terms than any single-output optimum would use
+    for i in 0..(if thorough { 16 } else { 6 }) {
+        let n = 3usize;
+        // f1, f2: sets of pairwise non-adjacent minterms; f0: their union plus maybe one more
+        let even: Vec<usize> = (0..8).filter(|m: &usize| m.count_ones() % 2 == 0).collect();
+        let odd: Vec<usize> = (0..8).filter(|m: &usize| m.count_ones() % 2 == 1).collect();
+        let k1 = 2 + (i + 1) % 2;
+        let f1: Vec<usize> = (0..k1).map(|j| even[(i + j) % 4]).collect();
+        let f2: Vec<usize> = (0..5 - k1 + (i / 2) % 2).map(|j| odd[(i + j) % 4]).collect();
+        let mut f0: Vec<usize> = f1.iter().chain(f2.iter()).cloned().collect();
+        f0.sort();
+        f0.dedup();
+        let mut a = f1.clone();
+        a.sort();
+        a.dedup();
+        let mut b = f2.clone();
+        b.sort();
+        b.dedup();
+        let t = [(3, 1, 1), (2, 1, 1), (3, 3, 2), (3, 2, 1)][i % 4];
+        push(&mut eps, n, vec![f0.clone(), a.clone(), b.clone()], "sop", t);
+        if i % 3 == 0 {
+            push(&mut eps, n, vec![f0, a, b], "sopes", (3, 3, 1));
+        }
+    }
+    push(&mut eps, 3, vec![vec![0usize, 1, 3, 5, 6], vec![0, 3, 5], vec![1, 6]], "sop", (3, 1, 1));
     // the classic 3-output witness: f1 = a(b + c'), f2 = b(c + a'), f3 = c(a + b')
     push(&mut eps, 3, vec![vec![1usize, 3, 7], vec![2, 6, 7], vec![4, 5, 7]], "sop", (1, 1, 1));
     if thorough {
